@@ -2,3 +2,4 @@
 #include "c11_routes.h"
 VH_CONFIG("sparse_f", (c11::small_case<float, c11::FormSparse<float>>));
 VH_CONFIG("sparse_f_big", (c11::big_case<float, c11::FormSparse<float>>));
+VH_CONFIG("sparse_f_huge", (c11::huge_case<float>));
